@@ -1,6 +1,10 @@
 import Ivg.Lemmas.FloatSqrt
 import Ivg.Lemmas.FloatConv
 import Ivg.Lemmas.FloatCmp
+import Ivg.Lemmas.FloatNearest
+import Ivg.Lemmas.FloatNearest32
+import Ivg.Lemmas.FloatSpecial
+import Ivg.Lemmas.FloatSpecial32
 import Ivg.Obligations
 /-!
 # SOFTFLOAT — the software IEEE-754 arithmetic of the model is the IEEE arithmetic
@@ -13,7 +17,8 @@ what is PROVED about it (kernel-checked, against values in `ℚ`) so that it nee
 * `Rnd64 v b` / `Rnd32 v b` (`FloatOrder.Rnd`, `FloatOrder32.Rnd`): the pattern `b` is the correct rounding
   (nearest, ties to even, gradual underflow, overflow to infinity, sign of `v`; either zero for `v = 0`)
   of the rational `v`.  `Rnd` is monotone (`Rnd_mono`), fixes every representable number (`Rnd_self`), and is
-  characterised independently of the implementation by `Rnd_nearest` … (see "the rounding relation").
+  characterised independently of the implementation: `Rnd_nearest`, `Rnd_tie_even`, `Rnd_overflow`, `Rnd_total`,
+  `Rnd_unique` (section "the rounding relation") say that `Rnd` IS round-to-nearest-even on `ℚ`.
 
 Bit patterns are `Nat`s (`a < 2^64`, `a < 2^32`); the wrappers `F64`/`F32` of `Ivg/Num/F32.lean` hold exactly
 such patterns (`a.nb`), and every operation result fits the width (`…_lt` lemmas in `Ivg/Lemmas/Float*.lean`),
@@ -50,6 +55,49 @@ theorem Rnd_self (b : Nat) (hb : b < 18446744073709551616) (h : Fin64 b) : Rnd64
 theorem Rnd32_self (b : Nat) (hb : b < 4294967296) (h : Fin32 b) : Rnd32 (val32 b) b :=
   FloatOrder32.Rnd_self b hb h
 example : Fin64 0x3FF8000000000000 ∧ Fin32 0x3FC00000 := by decide
+-- instances of the hypotheses of `Rnd_mono`: two roundings of ordered rationals
+example : Rnd64 (val64 0x3FF8000000000000) 0x3FF8000000000000 ∧ Rnd64 (val64 0x4000000000000000) 0x4000000000000000 ∧
+    val64 0x3FF8000000000000 ≤ val64 0x4000000000000000 :=
+  ⟨FloatOrder.Rnd_self _ (by decide) (by decide), FloatOrder.Rnd_self _ (by decide) (by decide),
+   (FloatOrder.key_le_iff _ _ (by decide) (by decide) (by decide) (by decide)).1 (by decide)⟩
+
+/-- **`Rnd` is round to nearest**: a finite rounding result is at least as close to `v` as every finite number
+    (subnormals included: gradual underflow). -/
+theorem Rnd_nearest (v : ℚ) (b : Nat) (h : Rnd64 v b) (fb : Fin64 b) (c : Nat) (hc : c < 18446744073709551616)
+    (fc : Fin64 c) : |v - val64 b| ≤ |v - val64 c| := FloatNearest.Rnd_nearest v b h fb c hc fc
+theorem Rnd32_nearest (v : ℚ) (b : Nat) (h : Rnd32 v b) (fb : Fin32 b) (c : Nat) (hc : c < 4294967296)
+    (fc : Fin32 c) : |v - val32 b| ≤ |v - val32 c| := FloatNearest32.Rnd_nearest v b h fb c hc fc
+/-- **ties to even**: if a finite number of another value is exactly as close, the result's mantissa is even. -/
+theorem Rnd_tie_even (v : ℚ) (b : Nat) (h : Rnd64 v b) (fb : Fin64 b) (c : Nat) (hc : c < 18446744073709551616)
+    (fc : Fin64 c) (htie : |v - val64 c| = |v - val64 b|) (hne : val64 c ≠ val64 b) : FloatOrder.mantB b % 2 = 0 :=
+  FloatNearest.Rnd_tie_even v b h fb c hc fc htie hne
+theorem Rnd32_tie_even (v : ℚ) (b : Nat) (h : Rnd32 v b) (fb : Fin32 b) (c : Nat) (hc : c < 4294967296)
+    (fc : Fin32 c) (htie : |v - val32 c| = |v - val32 b|) (hne : val32 c ≠ val32 b) : FloatOrder32.mantB b % 2 = 0 :=
+  FloatNearest32.Rnd_tie_even v b h fb c hc fc htie hne
+-- `2^53 + 1` lies half way between `2^53` and `2^53 + 2`; the even mantissa wins
+example : Rnd64 (9007199254740993 : ℚ) 0x4340000000000000 ∧ Fin64 0x4340000000000000 ∧ Fin64 0x4340000000000001 := by
+  refine ⟨?_, by decide, by decide⟩
+  have := FloatRound.ofInt_Rnd 9007199254740993
+  have e : Num.ofInt .f64 9007199254740993 = 0x4340000000000000 := by decide +kernel
+  rw [e] at this; exact_mod_cast this
+/-- **overflow**: the result is infinite exactly for `|v| ≥ 2^1024 - 2^970` (`FloatNearest.ovf`, half an ulp above the
+    largest finite number), and then it is the infinity of the sign of `v`. -/
+theorem Rnd_overflow (v : ℚ) (b : Nat) (h : Rnd64 v b) :
+    (¬ Fin64 b ↔ FloatNearest.ovf ≤ |v|) ∧
+    (¬ Fin64 b → b = if v < 0 then 0xFFF0000000000000 else 0x7FF0000000000000) := FloatNearest.Rnd_overflow v b h
+/-- binary32: overflow for `|v| ≥ 2^128 - 2^103`. -/
+theorem Rnd32_overflow (v : ℚ) (b : Nat) (h : Rnd32 v b) :
+    (¬ Fin32 b ↔ FloatNearest32.ovf ≤ |v|) ∧
+    (¬ Fin32 b → b = if v < 0 then 0xFF800000 else 0x7F800000) := FloatNearest32.Rnd_overflow v b h
+example : Rnd64 FloatNearest.ovf 0x7FF0000000000000 ∧ Rnd32 FloatNearest32.ovf 0x7F800000 :=
+  ⟨FloatNearest.Rnd_ovf, FloatNearest32.Rnd_ovf⟩
+/-- Every rational has a rounding; it is unique except for the sign of zero (`Rnd 0 (+0)`, `Rnd 0 (-0)`). -/
+theorem Rnd_total (v : ℚ) : ∃ b, Rnd64 v b := FloatNearest.Rnd_total v
+theorem Rnd_unique (v : ℚ) (b b' : Nat) (hv : v ≠ 0) (h : Rnd64 v b) (h' : Rnd64 v b') : b = b' :=
+  FloatNearest.Rnd_unique v b b' hv h h'
+theorem Rnd32_total (v : ℚ) : ∃ b, Rnd32 v b := FloatNearest32.Rnd_total v
+theorem Rnd32_unique (v : ℚ) (b b' : Nat) (hv : v ≠ 0) (h : Rnd32 v b) (h' : Rnd32 v b') : b = b' :=
+  FloatNearest32.Rnd_unique v b b' hv h h'
 
 /-! ## `+ - * /` -/
 
@@ -82,6 +130,126 @@ example : Fin32 0x3F800000 ∧ Fin32 0x40400000 ∧ FloatOrder32.mantB 0x4040000
     Num.div .f32 0x3F800000 0x40400000 = 0x3EAAAAAB :=
   ⟨by decide, by decide, by decide, by decide +kernel⟩
 
+/-! ## `+ - * /` on zeros, infinities and NaNs -/
+
+/-- The sign of an exact zero result: a sum is `-0` only for two negative operands (`x + (-x) = +0`); a product or
+    quotient has the exclusive or of the operand signs. -/
+theorem zero_signs (a b : Nat) (fa : Fin64 a) (fb : Fin64 b) :
+    (val64 a + val64 b = 0 → Num.add .f64 a b = FloatSpecial.zero (FloatOrder.negB64 a && FloatOrder.negB64 b)) ∧
+    (val64 a * val64 b = 0 → Num.mul .f64 a b = FloatSpecial.zero (FloatOrder.negB64 a != FloatOrder.negB64 b)) ∧
+    (val64 a = 0 → val64 b ≠ 0 → Num.div .f64 a b = FloatSpecial.zero (FloatOrder.negB64 a != FloatOrder.negB64 b)) :=
+  ⟨FloatSpecial.add_zero_sign a b fa fb, FloatSpecial.mul_zero_sign a b fa fb, FloatSpecial.div_zero_sign a b fa fb⟩
+theorem zero_signs32 (a b : Nat) (fa : Fin32 a) (fb : Fin32 b) :
+    (val32 a + val32 b = 0 → Num.add .f32 a b = FloatSpecial32.zero (FloatOrder32.negB32 a && FloatOrder32.negB32 b)) ∧
+    (val32 a * val32 b = 0 → Num.mul .f32 a b = FloatSpecial32.zero (FloatOrder32.negB32 a != FloatOrder32.negB32 b)) ∧
+    (val32 a = 0 → val32 b ≠ 0 →
+      Num.div .f32 a b = FloatSpecial32.zero (FloatOrder32.negB32 a != FloatOrder32.negB32 b)) :=
+  ⟨FloatSpecial32.add_zero_sign a b fa fb, FloatSpecial32.mul_zero_sign a b fa fb,
+   FloatSpecial32.div_zero_sign a b fa fb⟩
+example : Fin64 0x3FF0000000000000 ∧ Fin64 0xBFF0000000000000 ∧ Num.add .f64 0x3FF0000000000000 0xBFF0000000000000 = 0 :=
+  ⟨by decide, by decide, by decide +kernel⟩
+/-- Division of a finite number by `±0`: `0/0` is the default NaN, otherwise `±Inf` with the quotient sign. -/
+theorem div_by_zero (a b : Nat) (fa : Fin64 a) (fb : Fin64 b) (hb0 : val64 b = 0) :
+    Num.div .f64 a b = if val64 a = 0 then FloatSpecial.dNaN
+      else FloatSpecial.inf (FloatOrder.negB64 a != FloatOrder.negB64 b) := FloatSpecial.div_by_zero a b fa fb hb0
+theorem div32_by_zero (a b : Nat) (fa : Fin32 a) (fb : Fin32 b) (hb0 : val32 b = 0) :
+    Num.div .f32 a b = if val32 a = 0 then FloatSpecial32.dNaN
+      else FloatSpecial32.inf (FloatOrder32.negB32 a != FloatOrder32.negB32 b) := FloatSpecial32.div_by_zero a b fa fb hb0
+example : Num.div .f64 0xBFF0000000000000 0 = 0xFFF0000000000000 ∧ Num.div .f64 0 0x8000000000000000 = FloatSpecial.dNaN := by
+  decide +kernel
+/-- Infinite operands of `+`: `Inf + x = Inf`, `Inf + Inf = Inf`, `Inf + (-Inf)` = default NaN. -/
+theorem add_inf (a b : Nat) :
+    (FloatRound.InfB a → Fin64 b → Num.add .f64 a b = a) ∧ (Fin64 a → FloatRound.InfB b → Num.add .f64 a b = b) ∧
+    (FloatRound.InfB a → FloatRound.InfB b →
+      Num.add .f64 a b = if FloatOrder.negB64 a = FloatOrder.negB64 b then a else FloatSpecial.dNaN) :=
+  ⟨FloatSpecial.add_inf_fin a b, FloatSpecial.add_fin_inf a b, FloatSpecial.add_inf_inf a b⟩
+theorem add32_inf (a b : Nat) :
+    (FloatRound32.InfB a → Fin32 b → Num.add .f32 a b = a) ∧ (Fin32 a → FloatRound32.InfB b → Num.add .f32 a b = b) ∧
+    (FloatRound32.InfB a → FloatRound32.InfB b →
+      Num.add .f32 a b = if FloatOrder32.negB32 a = FloatOrder32.negB32 b then a else FloatSpecial32.dNaN) :=
+  ⟨FloatSpecial32.add_inf_fin a b, FloatSpecial32.add_fin_inf a b, FloatSpecial32.add_inf_inf a b⟩
+/-- For non-NaN operands `a - b = a + (-b)` (so the cases of `-` are those of `+`). -/
+theorem sub_eq_add_neg (a b : Nat) (ha : NN64 a) (hb : NN64 b) : Num.sub .f64 a b = Num.add .f64 a (Num.neg .f64 b) :=
+  FloatSpecial.sub_eq_add_neg a b ha hb
+theorem sub32_eq_add_neg (a b : Nat) (ha : NN32 a) (hb : NN32 b) : Num.sub .f32 a b = Num.add .f32 a (Num.neg .f32 b) :=
+  FloatSpecial32.sub_eq_add_neg a b ha hb
+/-- Infinite operands of `*`: `±Inf` with the product sign, except `Inf · 0` = default NaN. -/
+theorem mul_inf (a b : Nat) :
+    (FloatRound.InfB a → FloatRound.InfB b → Num.mul .f64 a b = FloatSpecial.inf (FloatOrder.negB64 a != FloatOrder.negB64 b)) ∧
+    (FloatRound.InfB a → Fin64 b → Num.mul .f64 a b =
+      if val64 b = 0 then FloatSpecial.dNaN else FloatSpecial.inf (FloatOrder.negB64 a != FloatOrder.negB64 b)) ∧
+    (Fin64 a → FloatRound.InfB b → Num.mul .f64 a b =
+      if val64 a = 0 then FloatSpecial.dNaN else FloatSpecial.inf (FloatOrder.negB64 a != FloatOrder.negB64 b)) :=
+  ⟨FloatSpecial.mul_inf_inf a b, FloatSpecial.mul_inf_fin a b, FloatSpecial.mul_fin_inf a b⟩
+theorem mul32_inf (a b : Nat) :
+    (FloatRound32.InfB a → FloatRound32.InfB b →
+      Num.mul .f32 a b = FloatSpecial32.inf (FloatOrder32.negB32 a != FloatOrder32.negB32 b)) ∧
+    (FloatRound32.InfB a → Fin32 b → Num.mul .f32 a b =
+      if val32 b = 0 then FloatSpecial32.dNaN else FloatSpecial32.inf (FloatOrder32.negB32 a != FloatOrder32.negB32 b)) ∧
+    (Fin32 a → FloatRound32.InfB b → Num.mul .f32 a b =
+      if val32 a = 0 then FloatSpecial32.dNaN else FloatSpecial32.inf (FloatOrder32.negB32 a != FloatOrder32.negB32 b)) :=
+  ⟨FloatSpecial32.mul_inf_inf a b, FloatSpecial32.mul_inf_fin a b, FloatSpecial32.mul_fin_inf a b⟩
+/-- Infinite operands of `/`: `Inf/Inf` = default NaN, `Inf/x = ±Inf`, `x/Inf = ±0`. -/
+theorem div_inf (a b : Nat) :
+    (FloatRound.InfB a → FloatRound.InfB b → Num.div .f64 a b = FloatSpecial.dNaN) ∧
+    (FloatRound.InfB a → Fin64 b → Num.div .f64 a b = FloatSpecial.inf (FloatOrder.negB64 a != FloatOrder.negB64 b)) ∧
+    (Fin64 a → FloatRound.InfB b → Num.div .f64 a b = FloatSpecial.zero (FloatOrder.negB64 a != FloatOrder.negB64 b)) :=
+  ⟨FloatSpecial.div_inf_inf a b, FloatSpecial.div_inf_fin a b, FloatSpecial.div_fin_inf a b⟩
+theorem div32_inf (a b : Nat) :
+    (FloatRound32.InfB a → FloatRound32.InfB b → Num.div .f32 a b = FloatSpecial32.dNaN) ∧
+    (FloatRound32.InfB a → Fin32 b →
+      Num.div .f32 a b = FloatSpecial32.inf (FloatOrder32.negB32 a != FloatOrder32.negB32 b)) ∧
+    (Fin32 a → FloatRound32.InfB b →
+      Num.div .f32 a b = FloatSpecial32.zero (FloatOrder32.negB32 a != FloatOrder32.negB32 b)) :=
+  ⟨FloatSpecial32.div_inf_inf a b, FloatSpecial32.div_inf_fin a b, FloatSpecial32.div_fin_inf a b⟩
+example : FloatRound.InfB 0x7FF0000000000000 ∧ FloatRound.InfB 0xFFF0000000000000 ∧ Fin64 0 ∧
+    Num.add .f64 0x7FF0000000000000 0xFFF0000000000000 = FloatSpecial.dNaN ∧
+    Num.mul .f64 0x7FF0000000000000 0 = FloatSpecial.dNaN := ⟨by decide, by decide, by decide, by decide +kernel, by decide +kernel⟩
+/-- NaN operands (SSE): the first NaN operand is returned quieted. -/
+theorem nan_propagation (a b : Nat) :
+    (¬ NN64 a → Num.add .f64 a b = quiet .f64 a ∧ Num.sub .f64 a b = quiet .f64 a ∧
+      Num.mul .f64 a b = quiet .f64 a ∧ Num.div .f64 a b = quiet .f64 a) ∧
+    (NN64 a → ¬ NN64 b → Num.add .f64 a b = quiet .f64 b ∧ Num.sub .f64 a b = quiet .f64 b ∧
+      Num.mul .f64 a b = quiet .f64 b ∧ Num.div .f64 a b = quiet .f64 b) :=
+  ⟨fun h => ⟨FloatSpecial.add_nan_left a b h, FloatSpecial.sub_nan_left a b h, FloatSpecial.mul_nan_left a b h,
+      FloatSpecial.div_nan_left a b h⟩,
+   fun ha h => ⟨FloatSpecial.add_nan_right a b ha h, FloatSpecial.sub_nan_right a b ha h,
+      FloatSpecial.mul_nan_right a b ha h, FloatSpecial.div_nan_right a b ha h⟩⟩
+theorem nan32_propagation (a b : Nat) :
+    (¬ NN32 a → Num.add .f32 a b = quiet .f32 a ∧ Num.sub .f32 a b = quiet .f32 a ∧
+      Num.mul .f32 a b = quiet .f32 a ∧ Num.div .f32 a b = quiet .f32 a) ∧
+    (NN32 a → ¬ NN32 b → Num.add .f32 a b = quiet .f32 b ∧ Num.sub .f32 a b = quiet .f32 b ∧
+      Num.mul .f32 a b = quiet .f32 b ∧ Num.div .f32 a b = quiet .f32 b) :=
+  ⟨fun h => ⟨FloatSpecial32.add_nan_left a b h, FloatSpecial32.sub_nan_left a b h, FloatSpecial32.mul_nan_left a b h,
+      FloatSpecial32.div_nan_left a b h⟩,
+   fun ha h => ⟨FloatSpecial32.add_nan_right a b ha h, FloatSpecial32.sub_nan_right a b ha h,
+      FloatSpecial32.mul_nan_right a b ha h, FloatSpecial32.div_nan_right a b ha h⟩⟩
+example : ¬ NN64 0x7FF0000000000001 ∧ NN64 0 ∧
+    Num.mul .f64 0x7FF0000000000001 0x7FF8000000000002 = 0x7FF8000000000001 := ⟨by decide, by decide, by decide +kernel⟩
+/-- `quiet` sets the quiet bit (bit 51 / bit 22) and changes nothing else. -/
+theorem quiet_spec (b : Nat) :
+    quiet .f64 b = (if b / 2251799813685248 % 2 = 1 then b else b + 2251799813685248) ∧
+    quiet .f32 b = (if b / 4194304 % 2 = 1 then b else b + 4194304) :=
+  ⟨FloatRound.quiet_f64 b, FloatConv.quiet_f32 b⟩
+
+/-! ## the wrappers `F64`, `F32` never truncate a result -/
+
+/-- The `F64` / `F32` operators are the `Nat`-level operations on the stored patterns. -/
+theorem F64_ops (a b : F64) :
+    (a + b).nb = Num.add .f64 a.nb b.nb ∧ (a - b).nb = Num.sub .f64 a.nb b.nb ∧
+    (a * b).nb = Num.mul .f64 a.nb b.nb ∧ (a / b).nb = Num.div .f64 a.nb b.nb := FloatSpecial.F64_ops a b
+theorem F32_ops (a b : F32) :
+    (a + b).nb = Num.add .f32 a.nb b.nb ∧ (a - b).nb = Num.sub .f32 a.nb b.nb ∧
+    (a * b).nb = Num.mul .f32 a.nb b.nb ∧ (a / b).nb = Num.div .f32 a.nb b.nb := FloatSpecial32.F32_ops a b
+theorem F64_unary (a : F64) :
+    a.sqrt.nb = Num.sqrt .f64 a.nb ∧ a.floor.nb = Num.floor .f64 a.nb ∧ a.ceil.nb = Num.ceil .f64 a.nb ∧
+    (-a).nb = Num.neg .f64 a.nb ∧ (F64.toF32 a).nb = convert .f64 .f32 a.nb :=
+  ⟨FloatSqrt.sqrt_nb a, FloatRound.floor_nb a, FloatRound.ceil_nb a, FloatMono.neg_nb a, FloatConv.toF32_nb a⟩
+theorem F32_unary (a : F32) (i : Int) :
+    (-a).nb = Num.neg .f32 a.nb ∧ (F64.ofF32 a).nb = convert .f32 .f64 a.nb ∧
+    (F32.ofInt i).nb = Num.ofInt .f32 i ∧ (F64.ofInt i).nb = Num.ofInt .f64 i :=
+  ⟨FloatMono32.neg_nb a, FloatConv.ofF32_nb a, FloatRound32.ofInt_nb i, FloatRound.ofInt_nb i⟩
+
 /-! ## square root (binary64; the model has no binary32 root) -/
 
 /-- **`√a`, `a` finite and positive, is correctly rounded**: there are rationals `q1 ≤ q2` enclosing the real
@@ -108,7 +276,25 @@ theorem sqrt_unique (a : Nat) (fa : Fin64 a) (hpos : 0 < val64 a) (b' : Nat)
 /-- A rational root is rounded correctly (no tie problem: the root itself is rounded). -/
 theorem sqrt_exact (a : Nat) (fa : Fin64 a) (x : ℚ) (c : Nat) (hx : 0 < x) (hsq : val64 a = x ^ 2)
     (hR : Rnd64 x c) : Num.sqrt .f64 a = c := FloatSqrt.sqrt_exact a fa x c hx hsq hR
-example : Num.sqrt .f64 0x4010000000000000 = 0x4000000000000000 := by decide +kernel
+-- `√4 = 2`: `val a = 2²` and `2.0` is the rounding of `2`
+example : Fin64 0x4010000000000000 ∧ val64 0x4010000000000000 = (2 : ℚ) ^ 2 ∧ Rnd64 (2 : ℚ) 0x4000000000000000 ∧
+    Num.sqrt .f64 0x4010000000000000 = 0x4000000000000000 := by
+  refine ⟨by decide, ?_, ?_, by decide +kernel⟩
+  · have e1 : FloatOrder.negB64 0x4010000000000000 = false := by decide
+    have e2 : FloatOrder.mantB 0x4010000000000000 = 4503599627370496 := by decide
+    have e3 : FloatOrder.expB 0x4010000000000000 = -50 := by decide
+    show FloatOrder.bval _ = _
+    unfold FloatOrder.bval FloatOrder.sval FloatOrder.pow2; rw [e1, e2, e3]; norm_num
+  · have := FloatRound.ofInt_Rnd 2
+    have e : Num.ofInt .f64 2 = 0x4000000000000000 := by decide +kernel
+    rw [e] at this; exact_mod_cast this
+/-- The root of a finite positive number is finite, and it is at least as close as any finite number to every
+    rational of an enclosure `[q1, q2] ∋ √(val a)`: it is the nearest number to the real root. -/
+theorem sqrt_nearest (a : Nat) (fa : Fin64 a) (hpos : 0 < val64 a) :
+    Fin64 (Num.sqrt .f64 a) ∧
+    ∃ q1 q2 : ℚ, 0 < q1 ∧ q1 ≤ q2 ∧ q1 ^ 2 ≤ val64 a ∧ val64 a ≤ q2 ^ 2 ∧
+      ∀ x : ℚ, q1 ≤ x → x ≤ q2 → ∀ c, c < 18446744073709551616 → Fin64 c →
+        |x - val64 (Num.sqrt .f64 a)| ≤ |x - val64 c| := FloatNearest.sqrt_nearest a fa hpos
 
 /-- `√(±0) = ±0`. -/
 theorem sqrt_zero (a : Nat) (fa : Fin64 a) (h : FloatOrder.mantB a = 0) : Num.sqrt .f64 a = a :=
@@ -180,7 +366,8 @@ theorem narrow_special (a : Nat) (ha : a < 18446744073709551616) :
 /-- `float32(float64(x)) = x`. -/
 theorem toF32_ofF32 (a : F32) (fa : FloatMono32.Fin a) (h0 : FloatMono32.val a ≠ 0) : F64.toF32 (F64.ofF32 a) = a :=
   FloatConv.toF32_ofF32 a fa h0
-example : FloatMono32.Fin (⟨0x3DCCCCCD⟩ : F32) := by decide
+example : FloatMono32.Fin (⟨0x3DCCCCCD⟩ : F32) ∧ F64.toF32 (F64.ofF32 ⟨0x3DCCCCCD⟩) = ⟨0x3DCCCCCD⟩ :=
+  ⟨by decide, by decide +kernel⟩
 
 /-! ## integer conversions -/
 
@@ -192,7 +379,8 @@ theorem ofInt_exact (i : Int) (h : i.natAbs < 9007199254740992) :
 theorem ofInt32_Rnd (i : Int) : Rnd32 (i : ℚ) (Num.ofInt .f32 i) := FloatRound32.ofInt_Rnd i
 theorem ofInt32_exact (i : Int) (h : i.natAbs < 16777216) :
     Fin32 (Num.ofInt .f32 i) ∧ val32 (Num.ofInt .f32 i) = (i : ℚ) := FloatRound32.ofInt_exact i h
-example : Num.ofInt .f32 16777217 = 0x4B800000 ∧ Num.ofInt .f32 (-3) = 0xC0400000 := by decide +kernel
+example : (-3 : Int).natAbs < 16777216 ∧ Num.ofInt .f32 16777217 = 0x4B800000 ∧ Num.ofInt .f32 (-3) = 0xC0400000 := by
+  decide +kernel
 
 /-- `truncInt` of a finite number is its value truncated toward zero (`FloatRound.tr v = ⌊v⌋` for `v ≥ 0`,
     `⌈v⌉` otherwise); of an infinity or NaN it is `none`. -/
@@ -242,6 +430,16 @@ theorem toUInt8_spec (a : F32) :
 example : (⟨0x437F8000⟩ : F32).toUInt8 = 255 ∧ (⟨0x43808000⟩ : F32).toUInt8 = 1 ∧ (⟨0x7FC00000⟩ : F32).toUInt8 = 0 := by
   decide +kernel
 
+/-! ## decimal → binary (`strconv.ParseFloat` on an exact ratio) -/
+
+/-- `F64.ofRatio neg n d` / `F32.ofRatio neg n d` are the correct roundings of the rational `±n/d`. -/
+theorem ofRatio_Rnd (neg : Bool) (n d : Nat) (hd : 0 < d) :
+    Rnd64 ((if neg then -1 else 1) * ((n : ℚ) / d)) (F64.ofRatio neg n d).nb ∧
+    Rnd32 ((if neg then -1 else 1) * ((n : ℚ) / d)) (F32.ofRatio neg n d).nb :=
+  ⟨FloatConv.ofRatio64_Rnd neg n d hd, FloatConv.ofRatio32_Rnd neg n d hd⟩
+example : (F64.ofRatio false 1 10).bits = 0x3FB999999999999A ∧ (F32.ofRatio true 1 10).bits = 0xBDCCCCCD := by
+  decide +kernel
+
 /-! ## comparisons -/
 
 /-- On non-NaN operands `<`, `≤`, `==` are `<`, `≤`, `=` of the extended values (`-Inf = ⊥`, `+Inf = ⊤`,
@@ -266,6 +464,8 @@ theorem cmp32_fin (a b : Nat) (ha : a < 4294967296) (hb : b < 4294967296) (fa : 
     (Num.lt .f32 a b = true ↔ val32 a < val32 b) ∧ (Num.le .f32 a b = true ↔ val32 a ≤ val32 b) ∧
     (Num.eq .f32 a b = true ↔ val32 a = val32 b) :=
   ⟨FloatCmp32.lt_fin a b ha hb fa fb, FloatCmp32.le_fin a b ha hb fa fb, FloatCmp32.eq_fin a b ha hb fa fb⟩
+example : Fin64 0xBFF0000000000000 ∧ Fin64 0x3FF0000000000000 ∧ Num.lt .f64 0xBFF0000000000000 0x3FF0000000000000 = true := by
+  decide +kernel
 /-- With a NaN operand all three comparisons are false. -/
 theorem cmp_nan (a b : Nat) (h : ¬ NN64 a ∨ ¬ NN64 b) :
     Num.lt .f64 a b = false ∧ Num.le .f64 a b = false ∧ Num.eq .f64 a b = false :=
@@ -295,6 +495,22 @@ theorem abs_spec (a : Nat) (ha : a < 18446744073709551616) :
 example : Num.neg .f64 0x7FF8000000000001 = 0xFFF8000000000001 ∧ Num.abs .f64 0xBFF8000000000000 = 0x3FF8000000000000 := by
   decide +kernel
 
+/-!
+## What is not proved here / what remains trusted
+
+* The reading of a bit pattern: `FloatOrder.bval`, `FinB`, `NNB` (and the binary32 twins) ARE the definition of
+  "the value of a finite pattern", "finite", "not a NaN" (sign bit, biased exponent, mantissa with the hidden bit,
+  `emin = -1074 / -149`).  They are three-line definitions to be read against IEEE 754 §3.4; `FloatOrder.unpack_fin`
+  proves that the model's `unpack` decodes to exactly these fields.
+* `sqrt_Rnd` is an enclosure statement over `ℚ` (the real root is irrational in general); together with `Rnd_mono`
+  and `Rnd_nearest` it says the result is the rounding of the real root, but no theorem mentions `Real.sqrt`.
+* That x86-64 SSE computes IEEE 754 with exactly these NaN conventions (default NaN with the sign bit set, first NaN
+  operand quieted, `CVTT*` indefinite values) is the hardware's documentation plus the bit-for-bit differential test;
+  `nan_propagation`, `toInt64_spec`, … only state what the model does.
+* Not covered: the ports of Go's `sin/cos/acos/atan` (`Ivg/Model/GoMath.lean`; they are ordinary float programs on top
+  of these operations, not part of the arithmetic).
+-/
+
 end Ivg.Props.SoftFloat
 
 #obligations SOFTFLOAT [
@@ -302,6 +518,16 @@ end Ivg.Props.SoftFloat
   Ivg.Props.SoftFloat.Rnd32_mono,
   Ivg.Props.SoftFloat.Rnd_self,
   Ivg.Props.SoftFloat.Rnd32_self,
+  Ivg.Props.SoftFloat.Rnd_nearest,
+  Ivg.Props.SoftFloat.Rnd32_nearest,
+  Ivg.Props.SoftFloat.Rnd_tie_even,
+  Ivg.Props.SoftFloat.Rnd32_tie_even,
+  Ivg.Props.SoftFloat.Rnd_overflow,
+  Ivg.Props.SoftFloat.Rnd32_overflow,
+  Ivg.Props.SoftFloat.Rnd_total,
+  Ivg.Props.SoftFloat.Rnd_unique,
+  Ivg.Props.SoftFloat.Rnd32_total,
+  Ivg.Props.SoftFloat.Rnd32_unique,
   Ivg.Props.SoftFloat.add_Rnd,
   Ivg.Props.SoftFloat.sub_Rnd,
   Ivg.Props.SoftFloat.mul_Rnd,
@@ -310,10 +536,30 @@ end Ivg.Props.SoftFloat
   Ivg.Props.SoftFloat.sub32_Rnd,
   Ivg.Props.SoftFloat.mul32_Rnd,
   Ivg.Props.SoftFloat.div32_Rnd,
+  Ivg.Props.SoftFloat.zero_signs,
+  Ivg.Props.SoftFloat.zero_signs32,
+  Ivg.Props.SoftFloat.div_by_zero,
+  Ivg.Props.SoftFloat.div32_by_zero,
+  Ivg.Props.SoftFloat.add_inf,
+  Ivg.Props.SoftFloat.add32_inf,
+  Ivg.Props.SoftFloat.sub_eq_add_neg,
+  Ivg.Props.SoftFloat.sub32_eq_add_neg,
+  Ivg.Props.SoftFloat.mul_inf,
+  Ivg.Props.SoftFloat.mul32_inf,
+  Ivg.Props.SoftFloat.div_inf,
+  Ivg.Props.SoftFloat.div32_inf,
+  Ivg.Props.SoftFloat.nan_propagation,
+  Ivg.Props.SoftFloat.nan32_propagation,
+  Ivg.Props.SoftFloat.quiet_spec,
+  Ivg.Props.SoftFloat.F64_ops,
+  Ivg.Props.SoftFloat.F32_ops,
+  Ivg.Props.SoftFloat.F64_unary,
+  Ivg.Props.SoftFloat.F32_unary,
   Ivg.Props.SoftFloat.sqrt_Rnd,
   Ivg.Props.SoftFloat.sqrt_sandwich,
   Ivg.Props.SoftFloat.sqrt_unique,
   Ivg.Props.SoftFloat.sqrt_exact,
+  Ivg.Props.SoftFloat.sqrt_nearest,
   Ivg.Props.SoftFloat.sqrt_zero,
   Ivg.Props.SoftFloat.sqrt_negative,
   Ivg.Props.SoftFloat.sqrt_inf,
@@ -337,6 +583,7 @@ end Ivg.Props.SoftFloat
   Ivg.Props.SoftFloat.toInt32_spec,
   Ivg.Props.SoftFloat.toUInt32_spec,
   Ivg.Props.SoftFloat.toUInt8_spec,
+  Ivg.Props.SoftFloat.ofRatio_Rnd,
   Ivg.Props.SoftFloat.cmp_spec,
   Ivg.Props.SoftFloat.cmp32_spec,
   Ivg.Props.SoftFloat.cmp_fin,
